@@ -150,6 +150,17 @@ def main(tier, seed, replay=None):
         gi += 1
         for o in ({}, {"abort_on_first": True}, {"allow_warnings": True}):
             cases.append({"shapes": [], "sg": sgx, "data": list_data, "opts": dict(o), "group": gi, "structural_only": True, "nodes": [], "lits": []})
+    # property shapes with targets of their own whose focus nodes SHARE value nodes, for every shape-expecting component:
+    # each (focus node, value node) pair has its own result node, linked from the report exactly once
+    shared_data = rdflib.Graph().parse(data=LIST_PFX + "ex:a a ex:T ; ex:p ex:v1 , ex:v2 . ex:b a ex:T ; ex:p ex:v1 , ex:v3 . ex:c a ex:T ; ex:p ex:v1 .\n"
+                                                       "ex:v1 ex:z 5 ; a ex:Bad . ex:v2 ex:z \"ok\" . ex:v3 ex:z 7 , 8 .", format="turtle")
+    inner = "ex:Inner a sh:PropertyShape ; sh:path ex:z ; sh:datatype <http://www.w3.org/2001/XMLSchema#string> ; sh:maxCount 1 .\nex:InnerN a sh:NodeShape ; sh:property ex:Inner .\n"
+    for body in ("sh:property ex:Inner", "sh:node ex:InnerN", "sh:not ex:InnerN", "sh:or ( ex:InnerN [ sh:class ex:Nope ] )", "sh:and ( ex:InnerN )", "sh:xone ( ex:InnerN [ sh:class ex:Bad ] )",
+                 "sh:qualifiedValueShape ex:InnerN ; sh:qualifiedMinCount 2", "sh:class ex:Good", "sh:nodeKind sh:Literal"):
+        sgx = rdflib.Graph().parse(data=LIST_PFX + inner + "ex:Outer a sh:PropertyShape ; sh:targetClass ex:T ; sh:path ex:p ; " + body + " .", format="turtle")
+        gi += 1
+        for o in ({}, {"abort_on_first": True}, {"allow_warnings": True}, {"sparql_mode": True}):
+            cases.append({"shapes": [], "sg": sgx, "data": shared_data, "opts": dict(o), "group": gi, "structural_only": True, "nodes": [], "lits": []})
     rep = F.Report(PROP, tier, seed)
     ob = F.coq_build(["Props/C06.v"], extra=EC.EXTRA_VO)
     import pyshacl
@@ -244,7 +255,7 @@ def main(tier, seed, replay=None):
     cov = F.proof_coverage(ob)
     cov.update({
         "evaluations": len(cases), "distinct_nontrivial": stats["nonconforming"],
-        "rule": "case = shapes/data from the evaluator-level generators (nested shapes, templates for qualified siblings, severity mixes, SPARQL components) x 10 option settings (abort_on_first, allow_infos, allow_warnings, advanced, sparql_mode, inference rdfs/owlrl, Dataset input); plus shapes over every core component (C01's generator) in default mode and sparql_mode, RDF-list heads as value nodes, focus nodes and sequence paths, and a grid of the four property-pair components over every subset relation of the two value sets; on every real report: one report node, sh:conforms = verdict = text, text count = #sh:result, verdict <-> all top-level severities waived, every (nested) result well-formed, terms denote terms of the validated graphs, blank-node terms come with their description; non-trivial = non-conforming; for the modes the model covers the per-predicate triple counts and the multiset of result rows (focus, value, source shape, component, severity at every sh:detail depth) are compared with the model's report_graph",
+        "rule": "case = shapes/data from the evaluator-level generators (nested shapes, templates for qualified siblings, severity mixes, SPARQL components) x 10 option settings (abort_on_first, allow_infos, allow_warnings, advanced, sparql_mode, inference rdfs/owlrl, Dataset input); plus shapes over every core component (C01's generator) in default mode and sparql_mode, RDF-list heads as value nodes, focus nodes and sequence paths, targeted property shapes whose focus nodes share value nodes (every shape-expecting component), and a grid of the four property-pair components over every subset relation of the two value sets; on every real report: one report node, sh:conforms = verdict = text, text count = #sh:result, verdict <-> all top-level severities waived, every (nested) result well-formed, terms denote terms of the validated graphs, blank-node terms come with their description; non-trivial = non-conforming; for the modes the model covers the per-predicate triple counts and the multiset of result rows (focus, value, source shape, component, severity at every sh:detail depth) are compared with the model's report_graph",
         "distribution": dict(stats, histogram_cases=len(bodies), model_disagreements=len(failed), structural_complaints=len(complaints)),
         "samples": [{"options": cases[i]["opts"], "shapes_ttl": cases[i]["sg"].serialize(format="turtle")[:1500]} for i in (0, len(cases) // 2)],
     })
